@@ -54,7 +54,11 @@ NAMES = ["x-a", "X-A", "x-A", "x-fOO-bar", "content-md5", "ETag", "x_under-score
 STRIP_VARIANTS = ["authorization", "Authorization", "AUTHORIZATION", "AuThOrIzAtIoN", "proxy-authorization", "Proxy-Authorization",
                   "PROXY-AUTHORIZATION", "proxy-AUTHORIZATION", "cookie", "Cookie", "COOKIE", "CooKie", "cOOKIE"]
 VALUES = ["1", "", "a,b", "a, b", " padded inner  x", "tab\tin", "x=1; y=2", "é中文", "\U0001f600", "v" * 40, "Bearer tok,en", "q=\"a,b\"", "=", ",",
-          "ends,", "a,,b"]
+          "ends,", "a,,b",
+          # valid UTF-8 that encoders treat specially: format / tag characters outside the BMP, zero-width and BOM, the JSON-hostile
+          # line separators, C1 controls, non-characters, the largest code point, HTML-escaped and backslash/quote characters
+          "\U0001f3f4\U000e0067\U000e0062\U000e0065\U000e006e\U000e0067\U000e007f", "tag\U000e0020x", "zw\u200bj\u200d", "\ufeffbom", "ls\u2028ps\u2029",
+          "nel\u0085c1\u009f", "non\ufffe\uffff", "max\U0010ffff", "\ufffd", "<a href='x'>&amp;</a>", "back\\slash\\u0041", "\\U000e0067"]
 
 
 def rand_case_variant(rng, s):
